@@ -55,7 +55,11 @@ func (cw *concWorld) c06Read(s *sim.Sched, kind string, a, b int, park func()) {
 			cc.Close()
 		}
 	case "reverse":
-		r.Reverse(pr.Method, pr.Host, pr.Path)
+		host := pr.Host
+		if host != "" && b%3 == 0 {
+			host += ":8080" // the port is stripped on the way: still a plain lock-free read
+		}
+		r.Reverse(pr.Method, host, pr.Path)
 	case "has":
 		r.Has(k.Method, k.Pat.Raw)
 	case "route":
